@@ -1,6 +1,6 @@
 (** Entry points used by the correspondence driver: one model, one correspondence
     predicate and one oracle per case family.  Definitions only. *)
-From TD Require Import Base.Prelude Base.Codec Model.Hist Spec.HistSpec Model.IterRun Spec.Ideal Model.GeomRun Spec.GeomSpec.
+From TD Require Import Base.Prelude Base.Codec Model.Hist Spec.HistSpec Model.IterRun Spec.Ideal Model.GeomRun Spec.GeomSpec Model.OpsRun Spec.OpsSpec.
 
 (** case families (which harness runner produced the case) *)
 Definition FAM_HIST : N := 1.
@@ -8,6 +8,7 @@ Definition FAM_ZST : N := 2.
 Definition FAM_ITER : N := 3.
 Definition FAM_VIEW : N := 4.
 Definition FAM_ACCESS : N := 5.
+Definition FAM_OPS : N := 6.
 
 Definition model (fam : N) (inp : list N) : list N :=
   if (fam =? FAM_HIST)%N then hist_model inp
@@ -15,6 +16,7 @@ Definition model (fam : N) (inp : list N) : list N :=
   else if (fam =? FAM_ITER)%N then iter_model inp
   else if (fam =? FAM_VIEW)%N then view_model inp
   else if (fam =? FAM_ACCESS)%N then access_model inp
+  else if (fam =? FAM_OPS)%N then ops_model inp
   else BAD_CASE.
 
 (** correspondence: the implementation's observation equals the model's prediction *)
@@ -31,4 +33,5 @@ Definition oracle (prop fam : N) (inp obs : list N) : bool :=
   else if (fam =? FAM_ITER)%N then oracle_iter inp obs
   else if (fam =? FAM_VIEW)%N then oracle_view inp obs
   else if (fam =? FAM_ACCESS)%N then oracle_access inp obs
+  else if (fam =? FAM_OPS)%N then oracle_ops inp obs
   else false.
